@@ -1,6 +1,8 @@
 """Typestate / guarded-reachability rules over the receive and send transactions:
 C01 (publication discipline), C04 (finalisation typestate), C10 (no partial
 file), C13-Q2/Q3 (request sequencing), C18 (unacknowledged mode), C19 (suspend)."""
+import re
+
 from core import ExprBuilder, callee_name, expr_str, short, strip_generics, walk, places_in, calls_in
 from df import Flow, world_str, BOOL_TRUE
 from engine import rule, ok, bad, undecided, at, Anchor
@@ -140,9 +142,10 @@ def c04_s(ctx):
             eb = ExprBuilder(ctx.prog, f, user_stop=True)
             e = eb.rvalue(s["rv"])
             key = "%s:%s" % (f.name, field)
-            if e[0] == "place" and e[1] == "finished." + field.split(".")[1]:
-                # `finished` must be the payload of the received PDU
-                src = eb.var_defs("finished")
+            mfin = re.match(r"^(\w+)\." + field.split(".")[1] + "$", e[1]) if e[0] == "place" else None
+            if mfin:
+                # the variable must be the payload of the received Finished PDU
+                src = eb.var_defs(mfin.group(1))
                 if src and all("@Finished.0" in expr_str(x) for x in src):
                     yield ok("C04-S", key, at(f, s["span"]["line"]), "%s <- %s (Finished PDU field)" % (field, expr_str(e)))
                     continue
@@ -328,8 +331,9 @@ def c01_v(ctx):
         eb3 = ExprBuilder(ctx.prog, f3, user_stop=True)
         e = eb3.rvalue(s["rv"]) if j >= 0 else None
         txt = expr_str(e) if e else "call result"
-        key = "%s:self.checksum<-%s" % (f3.name, "eof" if "eof.checksum" in txt else "other")
-        if e is not None and "eof.checksum" in txt and all("@EoF.0" in expr_str(x) for x in eb3.var_defs("eof")):
+        meof = re.search(r"\{(\w+)\.checksum\}$", txt)
+        key = "%s:self.checksum<-%s" % (f3.name, "eof" if meof else "other")
+        if e is not None and meof and eb3.var_defs(meof.group(1)) and all("@EoF.0" in expr_str(x) for x in eb3.var_defs(meof.group(1))):
             yield ok("C01-V", key, at(f3, s["span"]["line"]), txt)
         else:
             yield bad("C01-V", key, at(f3, s["span"]["line"]), "self.checksum written from %s, not from the EOF PDU" % txt)
@@ -384,7 +388,8 @@ def c01_k(ctx):
         eb = ExprBuilder(ctx.prog, f, user_stop=True)
         e = eb.rvalue(s["rv"]) if j >= 0 else ("other",)
         txt = expr_str(e)
-        if "eof.file_size" in txt and all("@EoF.0" in expr_str(x) for x in eb.var_defs("eof")):
+        meof = re.search(r"\{(\w+)\.file_size\}$", txt)
+        if meof and eb.var_defs(meof.group(1)) and all("@EoF.0" in expr_str(x) for x in eb.var_defs(meof.group(1))):
             yield ok("C01-K", "%s:self.file_size<-eof" % f.name, at(f, s["span"]["line"]), txt)
         else:
             yield bad("C01-K", "%s:self.file_size<-other" % f.name, at(f, s["span"]["line"]), "self.file_size written from %s, not from the EOF PDU" % txt)
@@ -492,7 +497,8 @@ def c10_k3(ctx):
         if j < 0:
             continue
         eb = ExprBuilder(ctx.prog, f, user_stop=True)
-        if "eof.condition" not in expr_str(eb.rvalue(s["rv"])):
+        mc = re.match(r"^(\w+)\.condition$", expr_str(eb.rvalue(s["rv"])))
+        if not mc or not eb.var_defs(mc.group(1)) or not all("@EoF.0" in expr_str(x) for x in eb.var_defs(mc.group(1))):
             continue
         n += 1
         mode = [world_str(w) for w in fl.at_stmt(b, j)]
@@ -1030,7 +1036,8 @@ def c13_q3(ctx):
         v = dict(zip(e[4], e[5])).get("filestore_responses")
         txt = expr_str(v) if v else "?"
         key = "%s:FinishedIndication.filestore_responses" % f.name
-        if txt == "finished.filestore_response" and all("@Finished.0" in expr_str(x) for x in eb.var_defs("finished")):
+        mfin = re.match(r"^(\w+)\.filestore_response$", txt)
+        if mfin and eb.var_defs(mfin.group(1)) and all("@Finished.0" in expr_str(x) for x in eb.var_defs(mfin.group(1))):
             yield ok("C13-Q3", key, at(f, s["span"]["line"]), txt)
         elif f.name == "send_pdu" and "self." not in txt and "finished" not in txt:
             yield ok("C13-Q3", key, at(f, s["span"]["line"]), "no-closure unacknowledged end reports no responses: " + txt[:80])
